@@ -138,8 +138,9 @@ def generic_discharge(f, s):
             len(ops) == 2 and ops[1].startswith("std::ops::RangeFull"):
         return "drain(..) over the full range cannot be out of bounds"
     if tag == "call:BTreeMap::range" and len(ops) == 2 and \
-            (ops[1].startswith("std::ops::RangeFull") or ops[1].startswith("std::ops::RangeFrom")):
-        return "range with no upper bound cannot be inverted"
+            ops[1].startswith(("std::ops::RangeFull", "std::ops::RangeFrom", "std::ops::RangeTo::",
+                               "std::ops::RangeToInclusive")):
+        return "a range with a single bound cannot be inverted"
     if tag in ("call:String::insert", "call:String::insert_str") and len(ops) == 3 \
             and ops[1] == "const:0":
         return "insertion at byte 0 is always a char boundary"
@@ -189,6 +190,27 @@ def _root_call(f, v, depth=0):
     return None
 
 
+def ascii_only_predicate(pf):
+    """a char predicate built only from comparisons with ASCII constants and char::is_ascii_*"""
+    for c in pf.calls():
+        nm = c.callee or ""
+        if not re.search(r"<impl char>::is_ascii_\w+$", nm):
+            return False, "calls %s" % nm
+    for b, i, st in pf.assigns():
+        rv = st["rv"]
+        for o in ([rv.get("l"), rv.get("r")] if rv["k"] == "binop" else []):
+            c = op_const(o)
+            if c is not None and "char" in c and c.get("int", 0) >= 128:
+                return False, "compares with non-ASCII %r" % c["char"]
+    for b in pf.reachable():
+        t = pf.term(b)
+        if t["k"] == "switch" and t.get("discr_ty") == "char":
+            for v, _t in t["targets"]:
+                if v >= 128:
+                    return False, "switches on non-ASCII value %d" % v
+    return True, ""
+
+
 def verify_guard(f, s, entry):
     """re-verify a listed guard on the current MIR. guard forms:
        {"cond": needle, "value": bool}   a must-hold path condition containing needle
@@ -211,6 +233,26 @@ def verify_guard(f, s, entry):
                     f.dominates(c.bb, s["bb"]):
                 return True, "a call to `%s` dominates" % g["dom_call"]
         return False, "no call to `%s` dominates this site any more" % g["dom_call"]
+    if "ascii_only_fns" in g:
+        cr = f.crate
+        for path in g["ascii_only_fns"]:
+            pf = cr.fn(path)
+            if pf is None:
+                return False, "predicate %s not found" % path
+            ok, why = ascii_only_predicate(pf)
+            if not ok:
+                return False, ("%s is no longer ASCII-only (%s): a byte offset advanced by one "
+                               "per accepted character can land inside a multi-byte character"
+                               % (path, why))
+        # the loop that advances the offset may only classify characters with those predicates
+        allowed = set(g["ascii_only_fns"]) | set(g.get("loop_calls", []))
+        for scc in f.sccs():
+            for b in scc:
+                c = f.call_at(b)
+                if c is not None and c.name not in allowed and (c.callee or "") not in allowed:
+                    return False, "offset loop calls %s, which is outside the reviewed set" % c.name
+        return True, "character predicates %s accept one-byte characters only" % \
+            [p.rsplit("::", 1)[-1] for p in g["ascii_only_fns"]]
     if "backslice" in g:
         idx, needle = g["backslice"]
         t = s["term"]
